@@ -695,7 +695,7 @@ class DataGen:
         items = [self.gen(item, budget - 1, in_union=False) for _ in range(n)]
         if f.exotic_seqs:
             w = d.i(20)
-            if w == 0 and (not in_union or f.tuples_in_unions):
+            if (w == 0 and not in_union) or (f.tuples_in_unions and w < 5):
                 return tuple(items)
             if w == 1:
                 return tagged.UserSeq(items)
@@ -1427,3 +1427,53 @@ def render_plain(node):
                 fo["default"] = f["default"]
             out["fields"].append(fo)
     return out
+
+
+def reversed_variant(js):
+    """Same type names, different definitions: every record's fields in reverse order (definitions re-placed at
+    first use).  Dict data conforming to `js` conform to the variant too.  None if it cannot be spelled or is identical."""
+    try:
+        node, _ = M.resolve(_copy.deepcopy(js))
+        root, table = to_graph(node)
+        changed = False
+        for d in table.values():
+            if d["k"] == "record" and len(d["fields"]) >= 2:
+                d["fields"].reverse()
+                changed = True
+            if d["k"] == "enum" and len(d["symbols"]) >= 2:
+                d["symbols"] = d["symbols"][::-1]
+                changed = True
+        if not changed:
+            return None
+        ir, _t = linearize(root, table)
+        if not _spellable(ir, ""):
+            return None
+        return render_plain(ir)
+    except Exception:
+        return None
+
+
+def incompatible_variant(js):
+    """Same type names, incompatible definitions: every record gains a required field, enums get other symbols,
+    fixed types another size.  Data generated for one schema do not validate against the other."""
+    try:
+        node, _ = M.resolve(_copy.deepcopy(js))
+        root, table = to_graph(node)
+        if not table:
+            return None
+        for d in table.values():
+            if d["k"] == "record":
+                d["fields"].insert(0, {"name": "vx_added", "type": {"k": "long"}, "aliases": []})
+                for f in d["fields"]:
+                    f.pop("default", None)
+            elif d["k"] == "enum":
+                d["symbols"] = ["V_" + x for x in d["symbols"]]
+                d.pop("default", None)
+            elif d["k"] == "fixed":
+                d["size"] += 1
+        ir, _t = linearize(root, table)
+        if not _spellable(ir, ""):
+            return None
+        return render_plain(ir)
+    except Exception:
+        return None
